@@ -2,3 +2,4 @@ import SfProps.C20
 import SfProps.C02
 import SfProps.C13
 import SfProps.C20Adpcm
+import SfProps.C10
